@@ -1279,13 +1279,22 @@ class Scenario:
                 # the value is gone although strong handles exist that the program itself holds (directly, or inside the
                 # value of an object it holds directly): no value of strong_count can equal the number of handles any more
                 n = named.get(idx, 0) + len(oi.extra_real)
+                msg = ('after op %d the program holds strong handle(s) to object %d whose value has been destroyed: '
+                       'the strong count (0 or the dead mark) no longer equals the number of strong handles' % (self.op_index, idx))
                 for pid, pl in self.payloads.items():
                     po = self.objs.get(pl.obj) if pl.obj is not None else None
-                    if po is not None and not po.destroyed and named.get(pl.obj, 0) > 0:
-                        n += sum(1 for hv, tgt in pl.strong if tgt == idx)
+                    k = sum(1 for hv, tgt in pl.strong if tgt == idx)
+                    if not k or po is None or po.destroyed:
+                        continue
+                    if named.get(pl.obj, 0) > 0 or po.extra_real:
+                        n += k
+                    elif is_sym(po.extra):
+                        # the owner is held through its symbolic extra handles only: a violation for every e_owner >= 1
+                        self.require(s_eq(po.extra, 0), 'C06', 'handles-outlive-value', msg + ' (through the value of object %d, which the program holds)' % pl.obj)
                 if n > 0:
-                    raise Violation('C06', 'handles-outlive-value', 'after op %d the program holds %d strong handle(s) to object %d whose value has been destroyed: '
-                                    'the strong count (0 or the dead mark) no longer equals the number of strong handles' % (self.op_index, n, idx), self.model_values(None))
+                    raise Violation('C06', 'handles-outlive-value', msg, self.model_values(None))
+                if is_sym(oi.extra):
+                    self.require(s_eq(oi.extra, 0), 'C06', 'handles-outlive-value', msg)
             if oi.destroyed or oi.unwrapped or oi.freed:
                 continue
             s = self.strong(idx)
